@@ -32,8 +32,9 @@ type Unit struct {
 	ExtraArgs    []string
 
 	// overlay
-	Inject []Inject // extra source files compiled into vivid packages
-	Instr  []string // repo-relative files rewritten by the yield-point instrumenter
+	Inject  []Inject            // extra source files compiled into vivid packages
+	Instr   []string            // repo-relative files rewritten by the yield-point instrumenter
+	Windows map[string][]string // repo-relative file -> methods that get a window point before every statement (nil = all methods of *killedHandler / *Context in it)
 }
 
 // Inject adds a file to a package of /repo at build time (go build -overlay).
@@ -105,7 +106,7 @@ func (c *Check) unit(name string) *Unit {
 
 // makeOverlay writes the -overlay JSON for a unit ("" if it needs none).
 func makeOverlay(u *Unit, work string) (string, error) {
-	if len(u.Inject) == 0 && len(u.Instr) == 0 {
+	if len(u.Inject) == 0 && len(u.Instr) == 0 && len(u.Windows) == 0 {
 		return "", nil
 	}
 	repl := map[string]string{}
@@ -121,6 +122,18 @@ func makeOverlay(u *Unit, work string) (string, error) {
 		dst := filepath.Join(work, "instr-"+u.Name+"-"+filepath.Base(rel))
 		if err := instrumentFile(src, dst); err != nil {
 			return "", fmt.Errorf("instrument %s: %w", rel, err)
+		}
+		repl[src] = dst
+	}
+	for rel, fns := range u.Windows {
+		src := filepath.Join(repoDir, rel)
+		dst := filepath.Join(work, "win-"+u.Name+"-"+filepath.Base(rel))
+		set := map[string]bool{}
+		for _, fn := range fns {
+			set[fn] = true
+		}
+		if err := instrumentWindows(src, dst, set); err != nil {
+			return "", fmt.Errorf("window points %s: %w", rel, err)
 		}
 		repl[src] = dst
 	}
@@ -163,10 +176,11 @@ func init() {
 	}
 
 	registry["C16"] = &Check{
-		Rule:        "triples (a,b,c) of version vectors over 1-6 node ids with counters from {0,1,2,3,small,2^62,2^63-2,2^63-1,uniform}, entries absent / explicit zero / present, built through Increment chains or ReadVersionVector on crafted bytes; b and c are sometimes derived as upper bounds so that chains and upper bounds are frequent. Oracle: pointwise reference order + the lattice laws on the implementation's own answers + operand snapshots + wire round trip. Non-trivial = the pair (a,b) is not identical and involves an absent-vs-zero entry, an explicit zero or a counter >= 2^62. Distinct = hash of the three vectors.",
+		Rule:        "triples (a,b,c) of version vectors over 1-6 node ids with counters from {0,1,2,3,small,2^62,2^63-2,2^63-1,uniform}, entries absent / explicit zero / present, built through Increment chains or ReadVersionVector on crafted bytes; b and c are sometimes derived as upper bounds so that chains and upper bounds are frequent. Oracle: pointwise reference order + the lattice laws on the implementation's own answers + operand snapshots + wire round trip. Non-trivial = the pair (a,b) is not identical and involves an absent-vs-zero entry, an explicit zero or a counter >= 2^62. Distinct = hash of the three vectors. Unit large: the same laws on vectors of 1 to 65535 generated ids (sizes at the implementation's own thresholds, unions on both sides of 65535 entries, id ranges disjoint / overlapping / nested, counter widths 2, 3, 1000, 2^40), reference = pointwise maximum and pointwise order over the union of ids; non-trivial there = union of at least 32768 ids.",
 		Assumptions: []string{"vectors are built only through the package's public surface (Increment, Merge, Prune, Compact, ReadVersionVector)"},
 		Units: []Unit{
 			{Name: "laws", Pkg: "c16", Run: "^(TestC16Laws|TestC16Aliasing)$", QuickChecks: 60000, ThoroughChecks: 600000, ThoroughShards: 16},
+			{Name: "large", Pkg: "c16", Run: "^TestC16Large$", QuickChecks: 12, QuickShards: 8, ThoroughChecks: 150, ThoroughShards: 16},
 		},
 	}
 	registry["C17"] = &Check{
@@ -317,10 +331,12 @@ func init() {
 	}
 
 	registry["C19"] = &Check{
-		Rule:        "2-6 actors (some with providers), event types of value and pointer kind, a settled prefix of 0-10 and a script of 1-14 operations from {Subscribe (also repeated), Unsubscribe, UnsubscribeAll, Publish from an actor or from outside, kill a subscriber, restart a subscriber (failure answered by Restart)}, executed sequentially settled or racing (1 in 4). Sequential oracle: for every publication the receivers equal the reference model's subscriber set of that concrete type at that point, each exactly once, nobody else, no dead letter; racing oracle: never twice, never to an actor that was not subscribed at any time, exactly once to actors subscribed throughout. Always: per (publisher, subscriber) publication order, both event-stream tables at quiescence equal the model (white box), a final publication of every type reaches exactly the model's subscribers (restart keeps subscriptions). Non-trivial = a publication with >= 2 subscribers and >= 1 former subscriber (sequential) / >= 2 actors subscribed throughout (racing). Distinct = hash of the case.",
-		Assumptions: []string{"failures are answered by a one-for-one Restart of the system strategy so that 'restart keeps subscriptions' is exercised"},
+		Rule:        "2-6 actors (some with providers), event types of value and pointer kind, a settled prefix of 0-10 and a script of 1-14 operations from {Subscribe (also repeated), Unsubscribe, UnsubscribeAll, Publish from an actor or from outside, kill a subscriber, restart a subscriber (failure answered by Restart)}, executed sequentially settled or racing (1 in 4). Sequential oracle: for every publication the receivers equal the reference model's subscriber set of that concrete type at that point, each exactly once, nobody else, no dead letter; racing oracle: never twice, never to an actor that was not subscribed at any time, exactly once to actors subscribed throughout. Always: per (publisher, subscriber) publication order, both event-stream tables at quiescence equal the model (white box), a final publication of every type reaches exactly the model's subscribers (restart keeps subscriptions). Non-trivial = a publication with >= 2 subscribers and >= 1 former subscriber (sequential) / >= 2 actors subscribed throughout (racing). Distinct = hash of the case. Unit handover (generator-owned schedule): the termination / restart chain of subscriber a (kill, graceful kill, restart, restart that fails in OnRestarted) is parked at a drawn statement boundary of killed_handler.go (window points inserted into a copy at check time); meanwhile the name is spawned again (the successor subscribes in OnLaunch or later), bystanders and the successor subscribe / unsubscribe / publish; after the release more of the same, a kill of the zombie, final publications. Oracle: exactly once to every party whose subscription is determined (bystanders, the successor, the restarted actor incl. publications made during its restart), nobody else, nothing to the terminated predecessor, tables at quiescence equal the model. Non-trivial there = the point was reached and the actor parked.",
+		Assumptions: []string{"failures are answered by a one-for-one Restart of the system strategy so that 'restart keeps subscriptions' is exercised", "handover unit: what the terminating actor itself (or a zombie) still receives while it stands inside its termination is not judged"},
 		Units: []Unit{
 			{Name: "es", Pkg: "c19", Run: "^TestC19EventStream$", QuickChecks: 8000, ThoroughChecks: 80000, ThoroughShards: 16, CaseFile: true, CrashOracle: "no-crash", Inject: actorOverlay},
+			{Name: "handover", Pkg: "c19", Run: "^TestC19Handover$", QuickChecks: 6000, ThoroughChecks: 60000, ThoroughShards: 16, CaseFile: true, CrashOracle: "no-crash", Inject: actorOverlay,
+				Windows: map[string][]string{"internal/actor/killed_handler.go": nil}},
 		},
 	}
 
